@@ -57,6 +57,10 @@ class X:
             self.unit = k[0].unit.scaled(U.PI.pow(a["k"]))
             self.sid = "[pi^%d %s]" % (a["k"], k[0].sid)
             self.depth = k[0].depth + 1
+        elif kind == "one":          # scaled by a magnitude that is exactly 1 (written in one of several ways): the same unit
+            self.unit = k[0].unit
+            self.sid = "[1:%d %s]" % (a["form"], k[0].sid)
+            self.depth = k[0].depth + 1
         else:
             raise ValueError(kind)
 
@@ -98,6 +102,14 @@ def scale(a, q):
 
 def pis(a, k):
     return a if k == 0 else X("pis", [a], k=k)
+
+
+ONE_FORMS = ["* mag<1>()", "/ mag<1>()", "* mag<7ull>() / mag<7ull>()", "* (mag<12ull>() / mag<12ull>())", "* pow<0>(mag<5ull>())",
+             "/ mag<3ull>() * mag<3ull>()"]
+
+
+def one(a, form):
+    return X("one", [a], form=form % len(ONE_FORMS))
 
 
 def collides(*exprs):
@@ -179,6 +191,8 @@ def ty(e, rng):
     if k == "pis":
         kk = e.a["k"]
         return "decltype(%s{} %s)" % (a, " ".join(["* Magnitude<Pi>{}" if kk > 0 else "/ Magnitude<Pi>{}"] * abs(kk)))
+    if k == "one":
+        return "decltype(%s{} %s)" % (a, ONE_FORMS[e.a["form"]])
     raise ValueError(k)
 
 
@@ -232,6 +246,8 @@ def val(e, w, rng):
     if k == "pis":
         kk = e.a["k"]
         return "(%s %s)" % (a, " ".join(["* Magnitude<Pi>{}" if kk > 0 else "/ Magnitude<Pi>{}"] * abs(kk)))
+    if k == "one":
+        return "(%s %s)" % (a, ONE_FORMS[e.a["form"]])
     raise ValueError(k)
 
 
@@ -304,7 +320,7 @@ class Gen:
         r = self.rng
         if d <= 0 or r.random() < 0.12:
             return self.atom() if d > 0 else leaf(r.choice(self.leaves))
-        op = r.choices(["prod", "quot", "pow", "prefix", "scale", "pis"], [30, 25, 20, 10, 12, 3])[0]
+        op = r.choices(["prod", "quot", "pow", "prefix", "scale", "pis", "one"], [30, 25, 20, 10, 12, 3, 4])[0]
         if op in ("prod", "quot"):
             a = self.expr(d - 1)
             b = self.expr(r.choice([d - 1, d - 2, 0]))
@@ -318,6 +334,8 @@ class Gen:
             return prefix(self.any_prefix(), c)
         if op == "scale":
             return scale(c, self.any_scale())
+        if op == "one":
+            return one(c, r.randrange(len(ONE_FORMS)))
         return pis(c, r.choice([1, -1]))
 
     # ---- partner with the same atoms, different order / grouping (must be the identical type)
@@ -455,6 +473,8 @@ class Gen:
             return power(kids[0], e.a["e"])
         if k == "scale":
             return scale(kids[0], e.a["q"]) if r.random() < 0.6 else kids[0]
+        if k == "one":
+            return kids[0] if r.random() < 0.5 else one(kids[0], r.randrange(len(ONE_FORMS)))
         return pis(kids[0], e.a["k"])
 
     # ---- partner built from the dimension vector alone
@@ -594,6 +614,13 @@ class C02(F.Check):
             ("fixed", prefix("Milli", L("Meters")), prefix("Mebi", L("Meters"))),
             ("fixed", L("Days"), prefix("Nano", L("Seconds"))),
             ("fixed", L("Lux"), quot(prod(L("Candelas"), L("Steradians")), power(L("Meters"), 2))),
+            # scaling by a magnitude that is exactly 1 leaves any unit - named, prefixed, already scaled, compound - unchanged
+            ("fixed", one(scale(L("Feet"), 3), 0), L("Feet")),
+            ("fixed", one(scale(quot(L("Meters"), L("Seconds")), 1000), 2), quot(L("Meters"), L("Seconds"))),
+            ("fixed", one(scale(L("Inches"), Fraction(1, 7)), 4), scale(L("Inches"), Fraction(1, 7))),
+            ("fixed", one(one(scale(L("Grams"), Fraction(5, 3)), 1), 5), L("Grams")),
+            ("fixed", one(prefix("Kilo", L("Meters")), 3), L("Meters")),
+            ("fixed", scale(one(scale(L("Seconds"), 60), 0), 60), L("Hours")),
         ]
         pairs = list(fixed)
         stats = {"excluded_identical_units": 0, "ratio_out_of_double_range": 0, "no_partner": 0}
